@@ -16,25 +16,29 @@ def parseSched (s : String) : Option (List ReadEv) :=
 /-- run `Recv` repeatedly, rendering what the harness can observe on the real stream: per call the
     outcome (`m` = a message was returned and decodes, `err` = any error — classes and texts are not
     compared), the transport position after the call and the capacity requested for the buffer. -/
-def streamRun (c0 max : Nat) (wire : Bytes) (sched : List ReadEv) : String :=
+def streamRun (c0s : List Nat) (max : Nat) (wire : Bytes) (sched : List ReadEv) : String :=
   let total := wire.length
-  let rec go (n : Nat) (t : Transport) (acc : String) : String :=
+  -- `c0s`: the buffer capacity each call starts with (the last one is repeated): one number for an
+  -- implementation that allocates its buffer per call, the observed list for one that keeps it between calls
+  let rec go (n : Nat) (c0s : List Nat) (t : Transport) (acc : String) : String :=
     match n with
     | 0 => acc ++ "more@" ++ toString (total - t.wire.length)
     | n + 1 =>
+      let c0 := c0s.headD 512
+      let c0s := if c0s.length > 1 then c0s.drop 1 else c0s
       let o := recvC c0 max t
       let at_ := "@" ++ toString (total - o.t.wire.length) ++ ":" ++ toString o.cap
       match o.res with
       | .msg bs =>
         match unmarshalValue bs with
-        | .ok _ => go n o.t (acc ++ "m" ++ at_ ++ " ")
+        | .ok _ => go n c0s o.t (acc ++ "m" ++ at_ ++ " ")
         | .err _ => acc ++ "err" ++ at_
         | .panic _ => acc ++ "panic" ++ at_
       | .ioErr => acc ++ "err" ++ at_
       | .eof => acc ++ "err" ++ at_
       | .tooBig => acc ++ "err" ++ at_
       | .fuel => acc ++ "fuel" ++ at_
-  go (total / 8 + 2) { wire := wire, sched := sched } "ok "
+  go (total / 8 + 2) c0s { wire := wire, sched := sched } "ok "
 
 /-- `none` = command not handled here. -/
 def handleWire (cmd arg : String) : Option String :=
@@ -67,8 +71,8 @@ def handleWire (cmd arg : String) : Option String :=
     match arg.splitOn " " with
     | [m, c, w, sc] =>
       -- `Stream.max` may be negative (the client passes -1): the code tests `s.max > 0`
-      match m.toInt?, c.toNat?, bytesOfHex (if w = "-" then "" else w), parseSched sc with
-      | some max, some c0, some wire, some sched => streamRun c0 max.toNat wire sched
+      match m.toInt?, (c.splitOn ",").mapM (·.toNat?), bytesOfHex (if w = "-" then "" else w), parseSched sc with
+      | some max, some c0s, some wire, some sched => streamRun c0s max.toNat wire sched
       | _, _, _, _ => "bad-op"
     | _ => "bad-op"
   | "pad" => some <|
